@@ -349,7 +349,33 @@ Proof.
 Qed.
 
 (* ================================================================== Part C: interleavings *)
-(* ---- insert || insert: invariant over all reachable configurations *)
+Lemma mem_add : forall l x y, mem y (add l x) = mem y l || (y =? x).
+Proof.
+  intros l x y. apply Bool.eq_iff_eq_true. rewrite mem_In, In_add, orb_true_iff, mem_In, N.eqb_eq. reflexivity.
+Qed.
+Lemma filter_none : forall (f : N -> bool) l, (forall x, In x l -> f x = false) -> List.filter f l = [].
+Proof.
+  intros f l. induction l as [|a l IH]; intros H; [reflexivity|]. cbn [List.filter].
+  rewrite (H a (or_introl eq_refl)). apply IH. intros x Hx. apply H. right. exact Hx.
+Qed.
+Lemma keep_in_add_new : forall new live id, NoDup new -> In id new -> mem id live = false ->
+  len (keep_in (add live id) new) = len (keep_in live new) + 1.
+Proof.
+  intros new live id Hn. induction Hn as [|x xs Hx Hn IH]; intros Hin Hm; [destruct Hin|].
+  unfold keep_in in *. cbn [List.filter]. rewrite mem_add.
+  destruct (N.eq_dec x id) as [E|E].
+  - subst x. rewrite Hm, N.eqb_refl. cbn [orb].
+    assert (F : List.filter (fun y => mem y (add live id)) xs = List.filter (fun y => mem y live) xs).
+    { apply filter_ext_in. intros y Hy. rewrite mem_add. destruct (y =? id) eqn:Ey.
+      - apply N.eqb_eq in Ey. subst. contradiction.
+      - rewrite orb_false_r. reflexivity. }
+    rewrite F. rewrite len_cons. reflexivity.
+  - assert (Ex : (x =? id) = false) by (apply N.eqb_neq; exact E). rewrite Ex, orb_false_r.
+    destruct Hin as [Hin|Hin]; [contradiction|]. specialize (IH Hin Hm).
+    destruct (mem x live); [rewrite !len_cons, IH; lia|exact IH].
+Qed.
+
+(* ---- per-thread bookkeeping *)
 Definition in_cs (th : ithr) : bool := match i_pc th with ILock | IDone => false | _ => true end.
 (* reservations a thread holds that are not (yet) matched by a live document *)
 Definition debt (th : ithr) : N :=
@@ -366,153 +392,364 @@ Definition know (live : list N) (th : ithr) : Prop :=
   | IToken => i_failed th = false /\ mem (i_id th) live = true
   | _ => True
   end.
-(* `me` is the thread id of a; b has the other id *)
-Definition iinv (me : bool) (sh : shared) (a b : ithr) : Prop :=
-  NoDup (sh_live sh)
-  /\ sh_count sh = len (sh_live sh) + debt a + debt b
-  /\ match sh_mutex sh with
-     | None => in_cs a = false /\ in_cs b = false
-     | Some w => if Bool.eqb w me then in_cs a = true /\ in_cs b = false
-                 else in_cs a = false /\ in_cs b = true
-     end
-  /\ know (sh_live sh) a /\ know (sh_live sh) b.
 
-Lemma iinv_sym : forall me sh a b, iinv me sh a b -> iinv (negb me) sh b a.
+Definition gin_cs (th : thr) : bool :=
+  match th with
+  | TI x | TBI x _ => in_cs x
+  | TL x => match l_pc x with LLock | LDone => false | _ => true end
+  | TD x => match d_pc x with DLock | DDone => false | _ => true end
+  | TB x => match b_pc x with BLock | BDone => false | _ => true end
+  end.
+(* how far the counter is ahead of the live set because of this thread's unfinished critical section *)
+Definition gdebt (live : list N) (th : thr) : N :=
+  match th with
+  | TI x | TBI x _ => debt x
+  | TL x => match l_pc x with
+            | LLoad | LRecount => l_reserved x - len (keep_in live (l_new x))
+            | LRelease => l_reserved x - l_now x
+            | _ => 0
+            end
+  | TD x => match d_pc x with DDecr => 1 | _ => 0 end
+  | TB x => match b_pc x with BDecr => b_n x | _ => 0 end
+  end.
+Definition todo_ok (live new : list N) (todo : list (N * bool)) : Prop :=
+  forall id ok, In (id, ok) todo -> In id live \/ In id new.
+Definition gknow (live : list N) (th : thr) : Prop :=
+  match th with
+  | TI x | TBI x _ => know live x
+  | TL x => match l_pc x with
+            | LLock | LNew => l_todo x = l_items x
+            | LReserve => NoDup (l_new x) /\ keep_in live (l_new x) = [] /\ todo_ok live (l_new x) (l_todo x)
+            | LLoad => l_reserved x = len (l_new x) /\ NoDup (l_new x) /\ todo_ok live (l_new x) (l_todo x)
+            | LRecount => l_reserved x = len (l_new x)
+            | LRelease => l_reserved x = len (l_new x) /\ l_now x = len (keep_in live (l_new x))
+            | _ => True
+            end
+  | TD x => d_mutex x = true
+  | TB x => b_mutex x = true
+            /\ match b_pc x with
+               | BEngine => NoDup (b_ids x) /\ b_n x = len (keep_in live (b_ids x))
+               | _ => True
+               end
+  end.
+
+Lemma gdebt_outside : forall live th, gin_cs th = false -> gdebt live th = 0.
 Proof.
-  intros me sh a b [H1 [H2 [H3 [H4 H5]]]]. unfold iinv.
-  split; [exact H1|]. split; [lia|]. split; [|split; assumption].
-  destruct (sh_mutex sh) as [w|]; [|tauto].
-  destruct w, me; cbn in *; tauto.
+  intros live th H. destruct th as [x|x r|x|x|x]; cbn in *.
+  - unfold in_cs in H. unfold debt. destruct (i_ex x); [reflexivity|]. destruct (i_pc x); try discriminate; reflexivity.
+  - unfold in_cs in H. unfold debt. destruct (i_ex x); [reflexivity|]. destruct (i_pc x); try discriminate; reflexivity.
+  - destruct (l_pc x); try discriminate; reflexivity.
+  - destruct (d_pc x); try discriminate; reflexivity.
+  - destruct (b_pc x); try discriminate; reflexivity.
+Qed.
+Lemma gknow_outside : forall live live' th, gin_cs th = false -> gknow live th -> gknow live' th.
+Proof.
+  intros live live' th H K. destruct th as [x|x r|x|x|x]; cbn in *.
+  - unfold in_cs in H. unfold know in *. destruct (i_pc x); try discriminate; exact K.
+  - unfold in_cs in H. unfold know in *. destruct (i_pc x); try discriminate; exact K.
+  - destruct (l_pc x); try discriminate; exact K.
+  - exact K.
+  - destruct (b_pc x); try discriminate; exact K.
 Qed.
 
-(* when the other thread is outside its critical section, its knowledge does not mention live *)
-Lemma know_outside : forall live live' th, in_cs th = false -> know live th -> know live' th.
-Proof. intros live live' th H K. unfold in_cs in H. unfold know in *. destruct (i_pc th); try discriminate; exact K. Qed.
-Lemma debt_outside : forall th, in_cs th = false -> debt th = 0.
-Proof. intros th H. unfold in_cs in H. unfold debt. destruct (i_ex th); [reflexivity|]. destruct (i_pc th); try discriminate; reflexivity. Qed.
+(* what one step of one thread does to the accounting, whatever the other thread contributes (`rest`) *)
+Definition local_post (me : bool) (sh : shared) (cs : bool) (sh' : shared) (cs' : bool) : Prop :=
+  (cs = false -> sh_live sh' = sh_live sh)
+  /\ match cs, cs' with
+     | false, false => sh_mutex sh' = sh_mutex sh
+     | false, true => sh_mutex sh = None /\ sh_mutex sh' = Some me
+     | true, true => sh_mutex sh' = sh_mutex sh
+     | true, false => sh_mutex sh' = None
+     end.
 
 Ltac icrush :=
   unfold debt, know, in_cs in *;
   cbn [i_pc i_id i_ok i_ex i_failed i_refused sh_live sh_count sh_mutex ipc_set] in *.
 
-Lemma iinv_step : forall limit me sh a b sh' a',
-  iinv me sh a b -> istep limit me sh a = Some (sh', a') -> iinv me sh' a' b.
+Lemma istep_local : forall limit me sh a sh' a' rest,
+  NoDup (sh_live sh) -> sh_count sh = len (sh_live sh) + debt a + rest -> know (sh_live sh) a ->
+  istep limit me sh a = Some (sh', a') ->
+  NoDup (sh_live sh') /\ sh_count sh' = len (sh_live sh') + debt a' + rest /\ know (sh_live sh') a'
+  /\ local_post me sh (in_cs a) sh' (in_cs a').
 Proof.
-  intros limit me sh a b sh' a' [Hn [Hc [Hm [Ka Kb]]]] St.
-  assert (Hout : in_cs a = true -> in_cs b = false /\ debt b = 0).
-  { intros Ha. assert (X : in_cs b = false).
-    { destruct (sh_mutex sh) as [w|]; [destruct (Bool.eqb w me)|]; destruct Hm as [X Y]; congruence. }
-    split; [exact X|apply debt_outside; exact X]. }
-  assert (Kout : forall live', in_cs b = false -> know live' b).
-  { intros live' X. eapply know_outside; eassumption. }
-  remember (debt b) as db eqn:Edb.
+  intros limit me sh a sh' a' rest Hn Hc Ka St.
   destruct a as [pc id ok ex failed refused].
-  unfold istep in St. cbn [i_pc i_id i_ok i_ex i_failed i_refused] in St.
-  unfold iinv. rewrite <- Edb. clear Edb.
+  unfold istep in St. cbn [i_pc i_id i_ok i_ex i_failed i_refused] in St. unfold local_post.
   destruct pc.
   - (* ILock *)
-    destruct (sh_mutex sh) as [w|] eqn:Em; [discriminate|]. inversion St; subst; clear St.
-    destruct Hm as [_ Hb]. icrush. rewrite Bool.eqb_reflx.
-    repeat split; try assumption; try (destruct ex; lia).
+    destruct (sh_mutex sh) as [w|] eqn:Em; [discriminate|]. inversion St; subst sh' a'; clear St. icrush.
+    repeat split; try assumption; try (intros X; discriminate); try (destruct ex; lia).
   - (* IExists *)
-    inversion St; subst; clear St. icrush.
-    repeat split; try assumption;
-    try (destruct ex; destruct (mem id (sh_live sh')); lia).
+    inversion St; subst sh' a'; clear St. icrush.
+    repeat split; try assumption; try (intros X; discriminate); try (destruct ex; destruct (mem id (sh_live sh)); lia).
   - (* IReserve *)
-    destruct (Hout eq_refl) as [Hb Db]. icrush. destruct Ka as [Kf Ke].
+    icrush. destruct Ka as [Kf Ke].
     destruct ex.
-    + inversion St; subst; clear St. icrush. repeat split; assumption.
+    + inversion St; subst sh' a'; clear St. icrush. repeat split; try assumption; try (intros X; discriminate).
     + destruct (limit <=? sh_count sh).
-      * inversion St; subst; clear St. icrush. repeat split; assumption.
-      * inversion St; subst; clear St. icrush. repeat split; try assumption; try lia.
+      * inversion St; subst sh' a'; clear St. icrush. repeat split; try assumption; try (intros X; discriminate).
+      * inversion St; subst sh' a'; clear St. icrush. repeat split; try assumption; try (intros X; discriminate); try lia.
   - (* ICold *)
-    destruct (Hout eq_refl) as [Hb Db]. specialize (Kout (add (sh_live sh) id) Hb).
     icrush. destruct Ka as [Kf Ke].
     destruct ok.
     + inversion St; subst sh' a'; clear St. icrush. repeat split.
       * apply NoDup_add. exact Hn.
       * rewrite len_add. rewrite <- Ke. destruct ex; lia.
-      * exact Hm.
       * exact Kf.
       * apply mem_add_same.
-      * exact Kout.
-    + inversion St; subst; clear St. icrush. repeat split; try assumption; try (destruct ex; lia).
+      * intros X; discriminate.
+    + inversion St; subst sh' a'; clear St. icrush. repeat split; try assumption; try (intros X; discriminate); try (destruct ex; lia).
   - (* IToken *)
-    icrush. destruct Ka as [Kf Km]. rewrite Km in St. inversion St; subst; clear St. icrush.
-    repeat split; try assumption; try (destruct ex; lia).
+    icrush. destruct Ka as [Kf Km]. subst failed. rewrite Km in St. inversion St; subst sh' a'; clear St. icrush.
+    repeat split; try assumption; try (intros X; discriminate); try (destruct ex; lia).
   - (* IRelease *)
-    destruct (Hout eq_refl) as [Hb Db]. icrush.
-    destruct failed, ex; cbn [andb negb] in St; inversion St; subst; clear St; icrush;
-      repeat split; try assumption; try lia.
+    icrush.
+    destruct failed, ex; cbn [andb negb] in St; inversion St; subst sh' a'; clear St; icrush;
+      repeat split; try assumption; try lia; try (intros X; discriminate).
   - (* IUnlock *)
-    destruct (Hout eq_refl) as [Hb Db]. inversion St; subst; clear St. icrush.
-    repeat split; try assumption; try (destruct ex; lia).
+    inversion St; subst sh' a'; clear St. icrush.
+    repeat split; try assumption; try (destruct ex; lia); try (intros X; discriminate).
   - discriminate.
 Qed.
 
-(* the counter never passes the limit by an insert thread's step *)
-Lemma istep_le : forall limit me sh a sh' a',
-  sh_count sh <= limit -> istep limit me sh a = Some (sh', a') -> sh_count sh' <= limit.
+Ltac scbn :=
+  cbn [sh_live sh_count sh_mutex gdebt gknow gin_cs d_pc d_id d_existed d_mutex b_pc b_ids b_n b_mutex
+       l_pc l_items l_todo l_new l_reserved l_now l_refused].
+
+Lemma dstep_local : forall me sh x sh' x' rest,
+  NoDup (sh_live sh) -> sh_count sh = len (sh_live sh) + gdebt (sh_live sh) (TD x) + rest -> gknow (sh_live sh) (TD x) ->
+  dstep me sh x = Some (sh', x') ->
+  NoDup (sh_live sh') /\ sh_count sh' = len (sh_live sh') + gdebt (sh_live sh') (TD x') + rest /\ gknow (sh_live sh') (TD x')
+  /\ local_post me sh (gin_cs (TD x)) sh' (gin_cs (TD x')).
 Proof.
-  intros limit me sh a sh' a' H St. unfold istep in St.
-  destruct (i_pc a).
-  - destruct (sh_mutex sh); [discriminate|]. inversion St; subst; exact H.
-  - inversion St; subst; exact H.
-  - destruct (i_ex a); [inversion St; subst; exact H|].
-    destruct (limit <=? sh_count sh) eqn:E; inversion St; subst; cbn; [exact H|]. apply N.leb_gt in E. lia.
-  - destruct (i_ok a); inversion St; subst; cbn; exact H.
-  - destruct (mem (i_id a) (sh_live sh)); inversion St; subst; exact H.
-  - destruct (i_failed a && negb (i_ex a)); inversion St; subst; cbn; lia.
-  - inversion St; subst; cbn; exact H.
+  intros me sh x sh' x' rest Hn Hc K St. destruct x as [pc id ex mx]. cbn in K. subst mx.
+  unfold dstep in St. cbn [d_pc d_id d_existed d_mutex] in St. unfold local_post.
+  destruct pc; cbn [gdebt gknow gin_cs d_pc d_mutex] in *.
+  - destruct (sh_mutex sh) as [w|] eqn:Em; [discriminate|]. inversion St; subst sh' x'; clear St. scbn.
+    repeat split; try assumption.
+  - destruct (mem id (sh_live sh)); inversion St; subst sh' x'; clear St; scbn; repeat split; assumption.
+  - destruct (mem id (sh_live sh)) eqn:Em; inversion St; subst sh' x'; clear St; scbn; repeat split; try assumption.
+    + apply NoDup_filter. exact Hn.
+    + pose proof (len_remove _ _ Hn Em). lia.
+    + intros X; discriminate.
+  - inversion St; subst sh' x'; clear St. scbn. repeat split; try assumption; try (intros X; discriminate); try lia.
+  - inversion St; subst sh' x'; clear St. scbn. repeat split; try assumption; try (intros X; discriminate).
   - discriminate.
 Qed.
 
-(* insert-like threads: Insert, and BulkInsert (a sequence of the same critical section) *)
-Definition cur_of (th : thr) : option ithr :=
-  match th with TI x => Some x | TBI c _ => Some c | _ => None end.
-Definition insert_like (th : thr) : bool := match cur_of th with Some _ => true | None => false end.
-
-Lemma iinv_restart : forall me sh a b id ok,
-  iinv me sh a b -> i_pc a = IDone -> iinv me sh (istart id ok) b.
+Lemma bstep_local : forall me sh x sh' x' rest,
+  NoDup (sh_live sh) -> sh_count sh = len (sh_live sh) + gdebt (sh_live sh) (TB x) + rest -> gknow (sh_live sh) (TB x) ->
+  bstep me sh x = Some (sh', x') ->
+  NoDup (sh_live sh') /\ sh_count sh' = len (sh_live sh') + gdebt (sh_live sh') (TB x') + rest /\ gknow (sh_live sh') (TB x')
+  /\ local_post me sh (gin_cs (TB x)) sh' (gin_cs (TB x')).
 Proof.
-  intros me sh a b id ok [Hn [Hc [Hm [Ka Kb]]]] Hd. unfold iinv.
-  assert (Da : debt a = 0) by (apply debt_outside; unfold in_cs; rewrite Hd; reflexivity).
-  assert (Ia : in_cs a = false) by (unfold in_cs; rewrite Hd; reflexivity).
-  split; [exact Hn|]. split; [unfold debt at 1; cbn; lia|]. split; [|split; [reflexivity|exact Kb]].
-  rewrite Ia in Hm. exact Hm.
+  intros me sh x sh' x' rest Hn Hc K St. destruct x as [pc ids n mx]. cbn [gknow b_mutex b_pc b_ids b_n] in K. destruct K as [Km K]. subst mx.
+  unfold bstep in St. cbn [b_pc b_ids b_n b_mutex] in St. unfold local_post.
+  destruct pc; cbn [gdebt gknow gin_cs b_pc b_mutex b_ids b_n] in *.
+  - destruct (sh_mutex sh) as [w|] eqn:Em; [discriminate|]. inversion St; subst sh' x'; clear St. scbn.
+    repeat split; try assumption.
+  - inversion St; subst sh' x'; clear St. scbn. repeat split; assumption.
+  - cbv zeta in St. destruct (len (keep_in (sh_live sh) (dedup ids)) =? 0); inversion St; subst sh' x'; clear St; scbn;
+      repeat split; try assumption. apply NoDup_dedup.
+  - destruct K as [Ku Kn]. inversion St; subst sh' x'; clear St. scbn. repeat split; try assumption.
+    + apply NoDup_filter. exact Hn.
+    + pose proof (len_remove_all _ _ Hn Ku). lia.
+    + intros X; discriminate.
+  - inversion St; subst sh' x'; clear St. scbn. repeat split; try assumption; try (intros X; discriminate); try lia.
+  - inversion St; subst sh' x'; clear St. scbn. repeat split; try assumption; try (intros X; discriminate).
+  - discriminate.
 Qed.
 
-Lemma tstep_insert_like : forall limit me sh th b x,
-  cur_of th = Some x -> iinv me sh x b -> sh_count sh <= limit ->
-  forall sh' th', tstep limit me sh th = Some (sh', th') ->
-  exists x', cur_of th' = Some x' /\ iinv me sh' x' b /\ sh_count sh' <= limit.
+Lemma lstep_local : forall limit me sh x sh' x' rest,
+  NoDup (sh_live sh) -> sh_count sh = len (sh_live sh) + gdebt (sh_live sh) (TL x) + rest -> gknow (sh_live sh) (TL x) ->
+  lstep limit me sh x = Some (sh', x') ->
+  NoDup (sh_live sh') /\ sh_count sh' = len (sh_live sh') + gdebt (sh_live sh') (TL x') + rest /\ gknow (sh_live sh') (TL x')
+  /\ local_post me sh (gin_cs (TL x)) sh' (gin_cs (TL x')).
 Proof.
-  intros limit me sh th b x Hc I Hl sh' th' St. destruct th as [y|cur rest|y|y|y]; cbn in Hc; try discriminate.
-  - inversion Hc; subst y. cbn [tstep] in St.
-    destruct (istep limit me sh x) as [[sh1 x1]|] eqn:E; [|discriminate]. inversion St; subst.
-    exists x1. split; [reflexivity|split; [eapply iinv_step; eassumption|eapply istep_le; eassumption]].
-  - inversion Hc; subst cur. cbn [tstep] in St.
-    destruct (i_pc x) eqn:Ep;
-      try (destruct (istep limit me sh x) as [[sh1 x1]|] eqn:E; [|discriminate]; inversion St; subst;
-           exists x1; split; [reflexivity|split; [eapply iinv_step; eassumption|eapply istep_le; eassumption]]).
-    destruct rest as [|[id ok] r]; [discriminate|]. inversion St; subst.
-    exists (istart id ok). split; [reflexivity|split; [eapply iinv_restart; eassumption|exact Hl]].
+  intros limit me sh x sh' x' rest Hn Hc K St. destruct x as [pc items todo new reserved now refused].
+  unfold lstep in St. cbn [l_pc l_items l_todo l_new l_reserved l_now l_refused] in St. unfold local_post.
+  destruct pc; cbn [gdebt gknow gin_cs l_pc l_items l_todo l_new l_reserved l_now] in *.
+  - (* LLock *)
+    destruct (sh_mutex sh) as [w|] eqn:Em; [discriminate|]. inversion St; subst sh' x'; clear St. scbn.
+    repeat split; try assumption.
+  - (* LNew *)
+    inversion St; subst sh' x'; clear St. scbn. subst todo.
+    split; [exact Hn|]. split; [exact Hc|]. split; [|split; [intros X; discriminate|reflexivity]].
+    split; [apply NoDup_dedup|]. split.
+    + apply filter_none. intros y Hy. rewrite In_dedup, filter_In in Hy. destruct Hy as [_ Hy].
+      apply negb_true_iff in Hy. exact Hy.
+    + intros id ok Hin. destruct (mem id (sh_live sh)) eqn:Em; [left; apply mem_In; exact Em|right].
+      rewrite In_dedup, filter_In. split; [|rewrite Em; reflexivity].
+      rewrite in_map_iff. exists (id, ok). split; [reflexivity|exact Hin].
+  - (* LReserve *)
+    destruct K as [Kn [Kk Kt]].
+    destruct (negb (len new =? 0) && (limit <? sh_count sh + len new)); inversion St; subst sh' x'; clear St; scbn.
+    + repeat split; try assumption.
+    + rewrite Kk. scbn. rewrite len_nil. repeat split; try assumption; try lia.
+  - (* LLoad *)
+    destruct K as [Kr [Kn Kt]]. destruct todo as [|[id ok] restt].
+    + inversion St; subst sh' x'; clear St. scbn. repeat split; try assumption.
+    + inversion St; subst sh' x'; clear St. scbn.
+      destruct ok.
+      * destruct (mem id (sh_live sh)) eqn:Em.
+        -- assert (Ea : add (sh_live sh) id = sh_live sh) by (unfold add; rewrite Em; reflexivity).
+           rewrite Ea. repeat split; try assumption. intros i o Hi. apply Kt with o. right. exact Hi.
+        -- assert (Hin : In id new).
+           { destruct (Kt id true (or_introl eq_refl)) as [H|H]; [apply mem_In in H; congruence|exact H]. }
+           pose proof (keep_in_add_new new (sh_live sh) id Kn Hin Em) as Hk.
+           pose proof (len_keep_in_le (add (sh_live sh) id) new) as Hle.
+           repeat split.
+           ++ apply NoDup_add. exact Hn.
+           ++ rewrite len_add, Em. lia.
+           ++ exact Kr.
+           ++ exact Kn.
+           ++ intros i o Hi. destruct (Kt i o (or_intror Hi)) as [H|H]; [left; apply In_add; left; exact H|right; exact H].
+           ++ intros X; discriminate.
+      * repeat split; try assumption. intros i o Hi. apply Kt with o. right. exact Hi.
+  - (* LRecount *)
+    inversion St; subst sh' x'; clear St. scbn. repeat split; assumption.
+  - (* LRelease *)
+    destruct K as [Kr Kw]. inversion St; subst sh' x'; clear St. scbn.
+    repeat split; try assumption; try (intros X; discriminate); try lia.
+  - (* LUnlock *)
+    inversion St; subst sh' x'; clear St. scbn. repeat split; try assumption; try (intros X; discriminate).
+  - discriminate.
+Qed.
+
+Lemma tstep_local : forall limit me sh th sh' th' rest,
+  NoDup (sh_live sh) -> sh_count sh = len (sh_live sh) + gdebt (sh_live sh) th + rest -> gknow (sh_live sh) th ->
+  tstep limit me sh th = Some (sh', th') ->
+  NoDup (sh_live sh') /\ sh_count sh' = len (sh_live sh') + gdebt (sh_live sh') th' + rest /\ gknow (sh_live sh') th'
+  /\ local_post me sh (gin_cs th) sh' (gin_cs th').
+Proof.
+  intros limit me sh th sh' th' rest Hn Hc K St. destruct th as [x|cur r|x|x|x]; cbn [tstep] in St.
+  - destruct (istep limit me sh x) as [[sh1 x1]|] eqn:E; [|discriminate]. inversion St; subst sh' th'; clear St.
+    cbn [gdebt gknow gin_cs] in *. eapply istep_local; eassumption.
+  - cbn [gdebt gknow gin_cs] in *.
+    destruct (i_pc cur) eqn:Ep;
+      try (destruct (istep limit me sh cur) as [[sh1 x1]|] eqn:E; [|discriminate]; inversion St; subst sh' th'; clear St;
+           cbn [gdebt gknow gin_cs]; eapply istep_local; eassumption).
+    destruct r as [|[id ok] r]; [discriminate|]. inversion St; subst sh' th'; clear St.
+    cbn [gdebt gknow gin_cs]. unfold local_post, debt, know, in_cs in *. rewrite Ep in *. cbn.
+    repeat split; try assumption. destruct (i_ex cur); lia.
+  - destruct (lstep limit me sh x) as [[sh1 x1]|] eqn:E; [|discriminate]. inversion St; subst sh' th'; clear St.
+    eapply lstep_local; eassumption.
+  - destruct (dstep me sh x) as [[sh1 x1]|] eqn:E; [|discriminate]. inversion St; subst sh' th'; clear St.
+    eapply dstep_local; eassumption.
+  - destruct (bstep me sh x) as [[sh1 x1]|] eqn:E; [|discriminate]. inversion St; subst sh' th'; clear St.
+    eapply bstep_local; eassumption.
+Qed.
+
+(* ---- the pair invariant.  `me` is the thread id of a; b has the other id *)
+Definition ginv (me : bool) (sh : shared) (a b : thr) : Prop :=
+  NoDup (sh_live sh)
+  /\ sh_count sh = len (sh_live sh) + gdebt (sh_live sh) a + gdebt (sh_live sh) b
+  /\ match sh_mutex sh with
+     | None => gin_cs a = false /\ gin_cs b = false
+     | Some w => if Bool.eqb w me then gin_cs a = true /\ gin_cs b = false
+                 else gin_cs a = false /\ gin_cs b = true
+     end
+  /\ gknow (sh_live sh) a /\ gknow (sh_live sh) b.
+
+Lemma ginv_sym : forall me sh a b, ginv me sh a b -> ginv (negb me) sh b a.
+Proof.
+  intros me sh a b [H1 [H2 [H3 [H4 H5]]]]. unfold ginv.
+  split; [exact H1|]. split; [lia|]. split; [|split; assumption].
+  destruct (sh_mutex sh) as [w|]; [|tauto].
+  destruct w, me; cbn in *; tauto.
+Qed.
+
+Lemma ginv_step : forall limit me sh a b sh' a',
+  ginv me sh a b -> tstep limit me sh a = Some (sh', a') -> ginv me sh' a' b.
+Proof.
+  intros limit me sh a b sh' a' [Hn [Hc [Hm [Ka Kb]]]] St.
+  destruct (tstep_local limit me sh a sh' a' (gdebt (sh_live sh) b) Hn Hc Ka St) as [Hn' [Hc' [Ka' [Hl Hx]]]].
+  unfold ginv. destruct (gin_cs a) eqn:Ia.
+  - (* a inside its critical section: b is outside *)
+    assert (Ib : gin_cs b = false).
+    { destruct (sh_mutex sh) as [w|]; [destruct (Bool.eqb w me)|]; destruct Hm; congruence. }
+    assert (Hw : exists w, sh_mutex sh = Some w /\ Bool.eqb w me = true).
+    { destruct (sh_mutex sh) as [w|]; [|destruct Hm; discriminate]. exists w. split; [reflexivity|].
+      destruct (Bool.eqb w me); [reflexivity|destruct Hm; discriminate]. }
+    rewrite (gdebt_outside (sh_live sh) b Ib) in Hc'. rewrite (gdebt_outside (sh_live sh') b Ib).
+    split; [exact Hn'|]. split; [exact Hc'|]. split; [|split; [exact Ka'|eapply gknow_outside; eassumption]].
+    destruct (gin_cs a') eqn:Ia'.
+    + rewrite Hx. destruct Hw as [w [E1 E2]]. rewrite E1, E2. split; [reflexivity|exact Ib].
+    + rewrite Hx. split; [reflexivity|exact Ib].
+  - (* a outside: live is unchanged *)
+    specialize (Hl eq_refl). rewrite Hl in *.
+    split; [exact Hn|]. split; [exact Hc'|]. split; [|split; [exact Ka'|exact Kb]].
+    destruct (gin_cs a') eqn:Ia'.
+    + destruct Hx as [E1 E2]. rewrite E1 in Hm. rewrite E2. rewrite Bool.eqb_reflx. split; [reflexivity|apply Hm].
+    + rewrite Hx. destruct (sh_mutex sh) as [w|]; [|exact Hm].
+      destruct (Bool.eqb w me); destruct Hm as [X Y]; [congruence|split; assumption].
+Qed.
+
+(* the counter never passes the limit *)
+Lemma tstep_le : forall limit me sh th sh' th',
+  sh_count sh <= limit -> tstep limit me sh th = Some (sh', th') -> sh_count sh' <= limit.
+Proof.
+  assert (I : forall limit me sh a sh' a', sh_count sh <= limit -> istep limit me sh a = Some (sh', a') -> sh_count sh' <= limit).
+  { intros limit me sh a sh' a' H St. unfold istep in St.
+    destruct (i_pc a).
+    - destruct (sh_mutex sh); [discriminate|]. inversion St; subst; exact H.
+    - inversion St; subst; exact H.
+    - destruct (i_ex a); [inversion St; subst; exact H|].
+      destruct (limit <=? sh_count sh) eqn:E; inversion St; subst; cbn; [exact H|]. apply N.leb_gt in E. lia.
+    - destruct (i_ok a); inversion St; subst; cbn; exact H.
+    - destruct (mem (i_id a) (sh_live sh)); inversion St; subst; exact H.
+    - destruct (i_failed a && negb (i_ex a)); inversion St; subst; cbn; lia.
+    - inversion St; subst; cbn; exact H.
+    - discriminate. }
+  intros limit me sh th sh' th' H St. destruct th as [x|cur r|x|x|x]; cbn [tstep] in St.
+  - destruct (istep limit me sh x) as [[sh1 x1]|] eqn:E; [|discriminate]. inversion St; subst. eapply I; eassumption.
+  - destruct (i_pc cur);
+      try (destruct (istep limit me sh cur) as [[sh1 x1]|] eqn:E; [|discriminate]; inversion St; subst; eapply I; eassumption).
+    destruct r as [|[id ok] r]; [discriminate|]. inversion St; subst. exact H.
+  - destruct (lstep limit me sh x) as [[sh1 x1]|] eqn:E; [|discriminate]. inversion St; subst sh' th'; clear St.
+    unfold lstep in E. destruct (l_pc x).
+    + destruct (sh_mutex sh); [discriminate|]. inversion E; subst; exact H.
+    + inversion E; subst; exact H.
+    + destruct (negb (len (l_new x) =? 0) && (limit <? sh_count sh + len (l_new x))) eqn:G; inversion E; subst; cbn; [exact H|].
+      apply andb_false_iff in G. destruct G as [G|G].
+      * apply negb_false_iff in G. apply N.eqb_eq in G. lia.
+      * apply N.ltb_ge in G. exact G.
+    + destruct (l_todo x) as [|[id ok] rt]; inversion E; subst; cbn; exact H.
+    + inversion E; subst; exact H.
+    + inversion E; subst; cbn; lia.
+    + inversion E; subst; cbn; exact H.
+    + discriminate.
+  - destruct (dstep me sh x) as [[sh1 x1]|] eqn:E; [|discriminate]. inversion St; subst sh' th'; clear St.
+    unfold dstep in E. destruct (d_pc x).
+    + destruct (d_mutex x); [destruct (sh_mutex sh); [discriminate|]|]; inversion E; subst; exact H.
+    + destruct (mem (d_id x) (sh_live sh)); inversion E; subst; exact H.
+    + destruct (mem (d_id x) (sh_live sh)); inversion E; subst; cbn; exact H.
+    + inversion E; subst; cbn; lia.
+    + destruct (d_mutex x); inversion E; subst; cbn; exact H.
+    + discriminate.
+  - destruct (bstep me sh x) as [[sh1 x1]|] eqn:E; [|discriminate]. inversion St; subst sh' th'; clear St.
+    unfold bstep in E. destruct (b_pc x).
+    + destruct (b_mutex x); [destruct (sh_mutex sh); [discriminate|]|]; inversion E; subst; exact H.
+    + inversion E; subst; exact H.
+    + cbv zeta in E. destruct (len (keep_in (sh_live sh) (dedup (b_ids x))) =? 0); inversion E; subst; exact H.
+    + inversion E; subst; cbn; exact H.
+    + inversion E; subst; cbn; lia.
+    + destruct (b_mutex x); inversion E; subst; cbn; exact H.
+    + discriminate.
 Qed.
 
 Definition pair_inv (limit : N) (c : conf) : Prop :=
-  exists a b, cur_of (c_a c) = Some a /\ cur_of (c_b c) = Some b
-              /\ iinv false (c_sh c) a b /\ sh_count (c_sh c) <= limit.
+  ginv false (c_sh c) (c_a c) (c_b c) /\ sh_count (c_sh c) <= limit.
 
 Lemma cstep_pair_inv : forall limit c who, pair_inv limit c -> pair_inv limit (cstep limit c who).
 Proof.
-  intros limit c who [a [b [Ea [Eb [I Hl]]]]]. unfold cstep. destruct who.
-  - destruct (tstep limit true (c_sh c) (c_b c)) as [[sh' b']|] eqn:St; [|exists a, b; auto].
-    apply iinv_sym in I. cbn [negb] in I.
-    destruct (tstep_insert_like limit true (c_sh c) (c_b c) a b Eb I Hl sh' b' St) as [x' [E' [I' Hl']]].
-    exists a, x'. cbn. split; [exact Ea|split; [exact E'|split; [apply iinv_sym in I'; exact I'|exact Hl']]].
-  - destruct (tstep limit false (c_sh c) (c_a c)) as [[sh' a']|] eqn:St; [|exists a, b; auto].
-    destruct (tstep_insert_like limit false (c_sh c) (c_a c) b a Ea I Hl sh' a' St) as [x' [E' [I' Hl']]].
-    exists x', b. cbn. split; [exact E'|split; [exact Eb|split; [exact I'|exact Hl']]].
+  intros limit c who [I Hl]. unfold cstep. destruct who.
+  - destruct (tstep limit true (c_sh c) (c_b c)) as [[sh' b']|] eqn:St; [|split; assumption].
+    apply ginv_sym in I. cbn [negb] in I. split; cbn.
+    + pose proof (ginv_step _ _ _ _ _ _ _ I St) as I'. apply ginv_sym in I'. exact I'.
+    + eapply tstep_le; eassumption.
+  - destruct (tstep limit false (c_sh c) (c_a c)) as [[sh' a']|] eqn:St; [|split; assumption].
+    split; cbn; [eapply ginv_step; eassumption|eapply tstep_le; eassumption].
 Qed.
 Lemma crun_pair_inv : forall limit sched c, pair_inv limit c -> pair_inv limit (crun limit sched c).
 Proof.
@@ -520,52 +757,55 @@ Proof.
   cbn [crun fold_left]. apply IH. apply cstep_pair_inv. exact H.
 Qed.
 
-(* a fresh insert-like thread: Insert(id, ok) or BulkInsert(items) *)
+(* a call that has just arrived: Insert, BulkInsert, BulkLoadHnsw, Delete, BatchDelete (current protocol) *)
 Definition fresh (th : thr) : Prop :=
-  (exists id ok, th = TI (istart id ok)) \/ (exists id ok rest, th = TBI (istart id ok) rest).
-Lemma fresh_cur : forall th, fresh th -> exists id ok, cur_of th = Some (istart id ok).
-Proof. intros th [[id [ok E]]|[id [ok [rest E]]]]; subst; exists id, ok; reflexivity. Qed.
+  (exists id ok, th = TI (istart id ok)) \/ (exists id ok rest, th = TBI (istart id ok) rest)
+  \/ (exists items, th = TL (lstart items)) \/ (exists id, th = TD (dstart id)) \/ (exists ids, th = TB (bstart ids)).
+Lemma fresh_facts : forall live th, fresh th -> gin_cs th = false /\ gknow live th.
+Proof.
+  intros live th [[id [ok E]]|[[id [ok [rest E]]]|[[items E]|[[id E]|[ids E]]]]]; subst; cbn; auto.
+Qed.
 
 Lemma pair_inv_start : forall limit count live a b,
   NoDup live -> count = len live -> count <= limit -> fresh a -> fresh b ->
   pair_inv limit (cstart count live a b).
 Proof.
   intros limit count live a b Hn Hc Hl Fa Fb.
-  destruct (fresh_cur a Fa) as [ia [oa Ea]]. destruct (fresh_cur b Fb) as [ib [ob Eb]].
-  exists (istart ia oa), (istart ib ob). cbn. repeat split; try assumption.
-  unfold debt. cbn. lia.
+  destruct (fresh_facts live a Fa) as [Ia Ka]. destruct (fresh_facts live b Fb) as [Ib Kb].
+  split; [|exact Hl]. unfold ginv, cstart. cbn [c_sh c_a c_b sh_live sh_count sh_mutex].
+  rewrite (gdebt_outside live a Ia), (gdebt_outside live b Ib).
+  split; [exact Hn|]. split; [lia|]. split; [split; assumption|split; assumption].
 Qed.
 
-Lemma tdone_cur : forall th x, cur_of th = Some x -> tdone th = true -> i_pc x = IDone.
+Lemma tdone_outside : forall th, tdone th = true -> gin_cs th = false.
 Proof.
-  intros th x Hc Hd. destruct th as [y|cur rest|y|y|y]; cbn in Hc; try discriminate; inversion Hc; subst; cbn in Hd.
-  - destruct (i_pc x); try discriminate; reflexivity.
-  - destruct (i_pc x); try discriminate. reflexivity.
+  intros th H. destruct th as [x|x r|x|x|x]; cbn in *.
+  - unfold in_cs. destruct (i_pc x); try discriminate; reflexivity.
+  - unfold in_cs. destruct (i_pc x); try discriminate; reflexivity.
+  - destruct (l_pc x); try discriminate; reflexivity.
+  - destruct (d_pc x); try discriminate; reflexivity.
+  - destruct (b_pc x); try discriminate; reflexivity.
 Qed.
 
-(* insert-like || insert-like: exact at quiescence, bounded at every instant, for EVERY schedule *)
-Theorem pairs_insert_like : forall limit count live a b sched,
+(* ANY two calls out of {Insert, BulkInsert, BulkLoadHnsw, Delete, BatchDelete} of one tenant, any ids:
+   bounded at every instant, exact at quiescence, for EVERY schedule *)
+Theorem pairs_all : forall limit count live a b sched,
   NoDup live -> count = len live -> count <= limit -> fresh a -> fresh b ->
   let c := crun limit sched (cstart count live a b) in
-  (* at every instant *)
-  (final_live c <= final_count c /\ final_count c <= final_live c + 2 /\ final_count c <= limit /\ NoDup (sh_live (c_sh c)))
-  (* and when both calls have returned *)
+  (final_live c <= final_count c /\ final_count c <= limit /\ NoDup (sh_live (c_sh c)))
   /\ (quiescent c = true -> final_count c = final_live c /\ sh_mutex (c_sh c) = None).
 Proof.
   intros limit count live a b sched Hn Hc Hl Fa Fb c.
   pose proof (crun_pair_inv limit sched _ (pair_inv_start limit count live a b Hn Hc Hl Fa Fb)) as P.
-  fold c in P. destruct P as [x [y [Ex [Ey [[In [Ic [Im [Kx Ky]]]] Il]]]]].
+  fold c in P. destruct P as [[In [Ic [Im [Kx Ky]]]] Il].
   unfold final_count, final_live. split.
-  - assert (Dx : debt x <= 1) by (unfold debt; destruct (i_ex x); [lia|]; destruct (i_pc x); try lia; destruct (i_failed x); lia).
-    assert (Dy : debt y <= 1) by (unfold debt; destruct (i_ex y); [lia|]; destruct (i_pc y); try lia; destruct (i_failed y); lia).
-    repeat split; try assumption; lia.
+  - repeat split; try assumption. lia.
   - intros Q. unfold quiescent in Q. apply andb_true_iff in Q. destruct Q as [Qa Qb].
-    pose proof (tdone_cur _ _ Ex Qa) as Px. pose proof (tdone_cur _ _ Ey Qb) as Py.
-    assert (Dx : debt x = 0) by (apply debt_outside; unfold in_cs; rewrite Px; reflexivity).
-    assert (Dy : debt y = 0) by (apply debt_outside; unfold in_cs; rewrite Py; reflexivity).
+    pose proof (tdone_outside _ Qa) as Oa. pose proof (tdone_outside _ Qb) as Ob.
+    rewrite (gdebt_outside _ _ Oa), (gdebt_outside _ _ Ob) in Ic.
     split; [lia|].
     destruct (sh_mutex (c_sh c)) as [w|]; [|reflexivity].
-    unfold in_cs in Im. rewrite Px, Py in Im. destruct (Bool.eqb w false); destruct Im; discriminate.
+    rewrite Oa, Ob in Im. destruct (Bool.eqb w false); destruct Im; discriminate.
 Qed.
 
 (* every such pair does terminate under a fair schedule: a first, then b *)
@@ -574,38 +814,46 @@ Lemma pairs_nonvacuous :
   quiescent c = true /\ final_count c = 2 /\ final_live c = 2
   /\ match c_b c with TI x => i_refused x | _ => false end = true.
 Proof. vm_compute. auto. Qed.
+(* the schedule that made the old protocol drift now blocks the delete until the overwrite has unlocked *)
+Lemma pairs_nonvacuous_delete :
+  let c := crun 2 ([false; false; true; true; true] ++ repeat false 6 ++ repeat true 6)
+                (cstart 2 [1; 2] (TI (istart 1 true)) (TD (dstart 1))) in
+  quiescent c = true /\ final_count c = 1 /\ final_live c = 1.
+Proof. vm_compute. auto. Qed.
 
-(* ---- the pairs that involve Delete / BatchDelete: witnesses.  limit 2 throughout *)
+(* ---- REGRESSION DOCUMENTATION: the protocol BEFORE /repo 3784711 (Delete / BatchDelete without the
+   quota mutex: dstart_old / bstart_old).  Witness schedules from an exact state that end, both calls
+   returned, with the count one short of the live documents.  limit 2 throughout *)
 Definition drift_witness (limit count : N) (live : list N) (a b : thr) (sched : list bool) (c_end l_end : N) : Prop :=
   count = len live /\
   let c := crun limit sched (cstart count live a b) in
   quiescent c = true /\ final_count c = c_end /\ final_live c = l_end.
 
 (* X = 1 live, overwrite sees "exists", delete removes and decrements, overwrite re-creates *)
-Definition w_overwrite_delete := [false; false; true; true; true; false; false; false; false; false].
-Lemma overwrite_delete_witness :
-  drift_witness 2 2 [1; 2] (TI (istart 1 true)) (TD (dstart 1)) w_overwrite_delete 1 2.
+Definition w_overwrite_delete := [false; false; true; true; true; true; true; false; false; false; false; false].
+Lemma old_overwrite_delete_witness :
+  drift_witness 2 2 [1; 2] (TI (istart 1 true)) (TD (dstart_old 1)) w_overwrite_delete 1 2.
 Proof. vm_compute. auto. Qed.
-Lemma bulk_insert_delete_witness :
-  drift_witness 2 2 [1; 2] (TBI (istart 1 true) []) (TD (dstart 1)) w_overwrite_delete 1 2.
+Lemma old_bulk_insert_delete_witness :
+  drift_witness 2 2 [1; 2] (TBI (istart 1 true) []) (TD (dstart_old 1)) w_overwrite_delete 1 2.
 Proof. vm_compute. auto. Qed.
 (* bulk load over a live id: nothing reserved, delete decrements, load re-creates *)
-Definition w_load_over_delete := [false; false; false; true; true; true; false; false; false; false; false].
-Lemma bulk_load_overwrite_delete_witness :
-  drift_witness 2 2 [1; 2] (TL (lstart [(1, true)])) (TD (dstart 1)) w_load_over_delete 1 2.
+Definition w_load_over_delete := [false; false; false; true; true; true; true; true; false; false; false; false; false].
+Lemma old_bulk_load_overwrite_delete_witness :
+  drift_witness 2 2 [1; 2] (TL (lstart [(1, true)])) (TD (dstart_old 1)) w_load_over_delete 1 2.
 Proof. vm_compute. auto. Qed.
 (* bulk load of a NEW id: reserved, loaded, deleted (decrement), then "not inserted" => released too *)
-Definition w_load_new_delete := [false; false; false; false; true; true; true; false; false; false; false].
-Lemma bulk_load_new_delete_witness :
-  drift_witness 2 1 [2] (TL (lstart [(1, true)])) (TD (dstart 1)) w_load_new_delete 0 1.
+Definition w_load_new_delete := [false; false; false; false; true; true; true; true; true; false; false; false; false].
+Lemma old_bulk_load_new_delete_witness :
+  drift_witness 2 1 [2] (TL (lstart [(1, true)])) (TD (dstart_old 1)) w_load_new_delete 0 1.
 Proof. vm_compute. auto. Qed.
 (* insert of a NEW id: delete lands between the cold-tier insert and the coherence-token read *)
-Definition w_insert_new_delete := [false; false; false; false; true; true; true; false; false; false].
-Lemma insert_new_delete_witness :
-  drift_witness 2 1 [2] (TI (istart 1 true)) (TD (dstart 1)) w_insert_new_delete 0 1.
+Definition w_insert_new_delete := [false; false; false; false; true; true; true; true; true; false; false; false].
+Lemma old_insert_new_delete_witness :
+  drift_witness 2 1 [2] (TI (istart 1 true)) (TD (dstart_old 1)) w_insert_new_delete 0 1.
 Proof. vm_compute. auto. Qed.
 (* delete || batch delete of the same id: the batch's pre-count and the delete both report it *)
-Definition w_delete_batch := [false; false; true; true; true; false; false].
-Lemma delete_batch_delete_witness :
-  drift_witness 2 2 [1; 2] (TB (bstart [1])) (TD (dstart 1)) w_delete_batch 0 1.
+Definition w_delete_batch := [false; false; false; true; true; true; true; true; false; false; false].
+Lemma old_delete_batch_delete_witness :
+  drift_witness 2 2 [1; 2] (TB (bstart_old [1])) (TD (dstart_old 1)) w_delete_batch 0 1.
 Proof. vm_compute. auto. Qed.
